@@ -136,3 +136,10 @@ Definition key_signer_sources_ok : bool :=
       && bytes_eqb b (bos "return ks.NewPrivateKeySigner(c.String(optionPrivKeyFile.Name))")
   | _ => false
   end.
+
+(* the environment variables of a flag variable: source text of its EnvVars element *)
+Definition flag_env_of_var (v : bytes) : option bytes :=
+  match lookup_lit v flag_literals with
+  | None => None
+  | Some lit => lookup (bos "EnvVars") lit
+  end.
